@@ -119,6 +119,8 @@ enum Ev {
     Acquire500WithKeyInBody,
     StatusMalformed,
     Attest500,
+    /// environment: somebody removes the key directory while the agent runs (a clean-up job, an operator)
+    KeyDirRemoved,
 }
 
 struct Host {
@@ -128,6 +130,8 @@ struct Host {
     fault: Option<Ev>,
     hist_tag: u64,
     acl_problems: Vec<String>,
+    /// the key directory was removed by the environment in this history
+    dir_removed: bool,
 }
 
 struct Gate {
@@ -187,6 +191,7 @@ fn start_host(sh: Arc<Shared>) -> MockHost {
                             host.acl_problems.push(format!("key directory has mode {:o} owner {} when the first key is handed out", md.permissions().mode() & 0o777, md.uid()));
                         }
                     }
+                    Err(_) if host.dir_removed => {} // nothing can be stored; what the agent creates afterwards is checked after the poll
                     Err(_) => host.acl_problems.push("key directory does not exist when the first key is handed out".into()),
                 }
             }
@@ -340,6 +345,16 @@ fn scan_bytes(data: &[u8], secrets: &[String], place: &str, hits: &mut Vec<(Stri
     }
 }
 
+/// key files only ever sit in a root-owned directory of mode 0700
+fn key_dir_check(res: &mut EngineResult, case: &Value, when: &str) {
+    if let Ok(md) = std::fs::metadata(KEYS_DIR) {
+        let has_key = std::fs::read_dir(KEYS_DIR).map(|rd| rd.flatten().any(|e| e.file_name().to_string_lossy().ends_with(".key"))).unwrap_or(false);
+        if has_key && (md.permissions().mode() & 0o777 != 0o700 || md.uid() != 0) {
+            res.violation("key-dir-mode", &format!("{when}: the key directory holding key files has mode {:o} owner {}", md.permissions().mode() & 0o777, md.uid()), case.clone());
+        }
+    }
+}
+
 fn clean_state() {
     for d in [KEYS_DIR, LOG_DIR] {
         let _ = std::fs::remove_dir_all(d);
@@ -357,7 +372,7 @@ fn main() {
     let run_dir = format!("{}/run/c12-{}", std::env::var("VERIF_TARGET").unwrap_or("/verif/target".into()), std::process::id());
     let _ = std::fs::remove_dir_all(&run_dir);
     std::fs::create_dir_all(&run_dir).unwrap();
-    let sh = Arc::new(Shared { host: Mutex::new(Host { enabled: false, latched: None, issued: vec![], fault: None, hist_tag: 0, acl_problems: vec![] }), gate: Mutex::new(Gate { parked: false, permits: 0, shutdown: false }), cv: Condvar::new() });
+    let sh = Arc::new(Shared { host: Mutex::new(Host { enabled: false, latched: None, issued: vec![], fault: None, hist_tag: 0, acl_problems: vec![], dir_removed: false }), gate: Mutex::new(Gate { parked: false, permits: 0, shutdown: false }), cv: Condvar::new() });
     let host = start_host(sh.clone());
 
     // histories
@@ -375,6 +390,9 @@ fn main() {
         histories.push((b.clone(), 0));
     }
     histories.push((vec![Ev::Enable, Ev::Noop], 1));
+    histories.push((vec![Ev::Enable, Ev::KeyDirRemoved, Ev::Rotate, Ev::Noop], 0));
+    histories.push((vec![Ev::KeyDirRemoved, Ev::Enable, Ev::Noop], 0));
+    histories.push((vec![Ev::Enable, Ev::KeyDirRemoved, Ev::Noop, Ev::Rotate], 0));
     for f in faults {
         histories.push((vec![f, Ev::Enable, Ev::Noop], 0));
         histories.push((vec![Ev::Enable, f, Ev::Rotate, Ev::Noop], 0));
@@ -407,7 +425,7 @@ fn main() {
         }
         {
             let mut h = sh.host.lock().unwrap();
-            *h = Host { enabled: false, latched: None, issued: vec![], fault: None, hist_tag: 0xC1200000 + hi as u64, acl_problems: vec![] };
+            *h = Host { enabled: false, latched: None, issued: vec![], fault: None, hist_tag: 0xC1200000 + hi as u64, acl_problems: vec![], dir_removed: false };
         }
         let case = json!({"history": hist.iter().map(|e| format!("{:?}", e)).collect::<Vec<_>>(), "key_dir_prestate": pre});
         let mut seg = 0usize;
@@ -450,6 +468,10 @@ fn main() {
                 Ev::Disable => sh.host.lock().unwrap().enabled = false,
                 Ev::Rotate => sh.host.lock().unwrap().latched = None,
                 Ev::Noop => {}
+                Ev::KeyDirRemoved => {
+                    let _ = std::fs::remove_dir_all(KEYS_DIR);
+                    sh.host.lock().unwrap().dir_removed = true;
+                }
                 f => sh.host.lock().unwrap().fault = Some(*f),
             }
             // one agent poll
@@ -464,6 +486,7 @@ fn main() {
                 break;
             }
             evals += 1;
+            key_dir_check(&mut res, &case, &format!("after the poll that followed {:?}", e));
             for k in client_kinds {
                 let r = child.request(k);
                 responses.push((k.to_string(), r));
@@ -526,12 +549,7 @@ fn main() {
             res.violation("key-dir-not-restricted-before-first-key", &p, case.clone());
         }
         // the key files themselves: inside a 0700 root-owned directory
-        if let Ok(md) = std::fs::metadata(KEYS_DIR) {
-            let has_key = std::fs::read_dir(KEYS_DIR).map(|rd| rd.flatten().any(|e| e.file_name().to_string_lossy().ends_with(".key"))).unwrap_or(false);
-            if has_key && (md.permissions().mode() & 0o777 != 0o700 || md.uid() != 0) {
-                res.violation("key-dir-mode", &format!("key directory holding key files has mode {:o} owner {}", md.permissions().mode() & 0o777, md.uid()), case.clone());
-            }
-        }
+        key_dir_check(&mut res, &case, "at the end of the history");
         if hi < 2 {
             res.sample(json!({"case": case, "keys_issued": secrets.len(), "client_requests": responses.len()}));
         }
@@ -545,7 +563,7 @@ fn main() {
     res.cov("histories", histories.len() as u64);
     res.cov("keys_issued", keys_issued_total);
     res.cov("exhaustive", true);
-    res.cov("rule", "histories of host events over {enable, disable, rotate, no-op poll, agent restart} and one-shot faults that carry key material (acquire answered with the key but a missing field / trailing garbage / a non-hex key, 500 with the key in the body, a status document that fails validation, attest 500), with the key directory absent or left over with mode 0755; the whole agent (real start_service, loggers at Trace, production paths) runs as a child process in lock-step with the mock host; after every poll six client requests (allowed IMDS, WireServer, denied, direct, /provision, /provision with notify); afterwards every file under the log/event/status/key directories (key files excepted), stdout/stderr, /dev/console and all client responses are searched for every secret issued (hex any case, raw bytes); non-trivial = history in which a key was issued".to_string());
+    res.cov("rule", "histories of host events over {enable, disable, rotate, no-op poll, agent restart} and one-shot faults that carry key material (acquire answered with the key but a missing field / trailing garbage / a non-hex key, 500 with the key in the body, a status document that fails validation, attest 500), with the key directory absent or left over with mode 0755, or removed by the environment while the agent runs (before the first latch / before a rotation); the whole agent (real start_service, loggers at Trace, production paths) runs as a child process in lock-step with the mock host; after every poll six client requests (allowed IMDS, WireServer, denied, direct, /provision, /provision with notify); afterwards every file under the log/event/status/key directories (key files excepted), stdout/stderr, /dev/console and all client responses are searched for every secret issued (hex any case, raw bytes); non-trivial = history in which a key was issued".to_string());
     res.assume("the kernel program is not attached (no kprobes here); the child installs real kernel maps for attribution like the E2 world");
     std::process::exit(res.finish());
 }
